@@ -20,6 +20,7 @@ func (st *State) nonNilErr(hint string) Value { return st.freshNonNilIface(hint)
 func gxKey(h *Term) string { return "gxbuf:" + h.String() }
 
 func (st *State) gxContent(h *Term) *Term {
+	h = st.norm(h)
 	if v, ok := st.ghost[gxKey(h)]; ok {
 		return v.(Scalar).T
 	}
@@ -29,6 +30,7 @@ func (st *State) gxContent(h *Term) *Term {
 }
 
 func (fr *Frame) gxSet(st *State, h *Term, c *Term) {
+	h = st.norm(h)
 	st.ghost[gxKey(h)] = Scalar{c}
 	if fr != nil && fr.dry != nil {
 		fr.dry.ghosts[gxKey(h)] = true
